@@ -83,6 +83,7 @@ func runC07(c *Ctx) {
 	c.c07SniffingFailureIsNotAnExtractionFailure()
 	c.c07NoAnswerFromAClosedFilesystem()
 	c.c07TimesReportTheErrorOfStat()
+	c.c07ArchivingInventsNoPattern()
 	c.c07EmptyDirectoriesAndDirectorySizes()
 }
 
@@ -1828,5 +1829,61 @@ func (c *Ctx) c07EmptyDirectoriesAndDirectorySizes() {
 			c.check(bad == "", "V15", fname(f)+"/directories-not-measured", c.pos(f.Pos()), "the size comparison lies on the 'not a directory' side",
 				"the size of every entry, directories included, is compared with the maximum file size ("+bad+"): the 4096 bytes a file system reports for a directory make a tree whose only file is five bytes long 'too large' under a limit of 1024 bytes per file")
 		}
+	}
+}
+
+// c07ArchivingInventsNoPattern (V16): "zipping it and unzipping the result reproduces the same relative paths …". The plain
+// variants of the archiving (Zip, ZipWithContext, ZipWithContextAndLimits) leave nothing out: they reach the implementation
+// with no exclusion pattern, and the variant that takes patterns hands over the caller's. A pattern of the library's own —
+// the base name of the archive, say, "so that the archive is left out of itself" — matches entry names at every depth:
+// every file or directory of that name disappears from the archive, directories with all they hold, and nothing reports it.
+func (c *Ctx) c07ArchivingInventsNoPattern() {
+	c.rule("V16", "the archiving implementation is handed, for its exclusion patterns, nothing or the patterns of the caller: no variant of Zip adds a pattern of its own", 1)
+	n := 0
+	for _, f := range c.srcFuncs(fsPkgRel) {
+		if f.Blocks == nil {
+			continue
+		}
+		allInstrs(f, func(in ssa.Instruction) {
+			cl, ok := in.(*ssa.Call)
+			if !ok {
+				return
+			}
+			var sig *types.Signature
+			name := ""
+			if cl.Call.IsInvoke() {
+				name = cl.Call.Method.Name()
+				sig, _ = cl.Call.Method.Type().(*types.Signature)
+			} else if g := staticCallee(&cl.Call); g != nil {
+				name = g.Name()
+				sig = g.Signature
+			}
+			if sig == nil || !strings.HasPrefix(name, "Zip") || !sig.Variadic() {
+				return
+			}
+			last := sig.Params().At(sig.Params().Len() - 1)
+			if last.Type().String() != "[]string" || !strings.Contains(strings.ToLower(last.Name()), "exclusion") {
+				return
+			}
+			arg := cl.Call.Args[len(cl.Call.Args)-1]
+			n++
+			own := false
+			for _, p := range outermost(f).Params {
+				if p.Type().String() == "[]string" && resolveValue(arg) == ssa.Value(p) {
+					own = true
+				}
+			}
+			els := variadicElems(arg)
+			empty := isNilConst(arg) || (len(els) == 0 && !own)
+			if _, isConstNil := arg.(*ssa.Const); isConstNil {
+				empty = true
+			}
+			c.FuncsSeen[fname(outermost(f))] = true
+			c.check(own || empty, "V16", fname(outermost(f))+"/patterns-to:"+name, c.ipos(cl), "no pattern, or the caller's own, is handed to the archiving implementation",
+				fname(outermost(f))+" hands the archiving implementation a pattern of its own making: patterns match entry names at every depth, so every file or directory of the tree that carries the matched name — the base name of the archive, say — is left out of the archive, directories with all they hold, without an error: zip then unzip no longer reproduces the tree, and the other variants disagree with this one")
+		})
+	}
+	if n == 0 {
+		c.violate("V16", fsPkgRel+"/no-archiving-call", "-", "no variant of Zip reaches an archiving implementation that takes patterns any more")
 	}
 }
